@@ -69,4 +69,4 @@ def run(npairs):
     print(f'pairs={npairs} paths={paths} viol={len(viol)} unsup={unsup} steps={steps} solver_calls={sc} solver_time={stime:.1f} wall={time.time()-t0:.1f}')
     for v, it in viol[:3]:
         it.solver.check(); print('  ', v, it.solver.model())
-for k in [1, 2, 3]: run(k)
+for k in [int(x) for x in sys.argv[1:]] or [1, 2, 3]: run(k)
